@@ -1,72 +1,136 @@
 import MJ.Proofs.MetaClosure
-/-! The simulation between run-time name resolution (`exec`) and the analysis (`walk`):
-whatever a statement asks the context for is in the report afterwards (or is the name of a
-self-referential macro), and the analysis' notion of "assigned" stays justified (C18). -/
+/-! The simulation between run-time name resolution (`exec`) and the analysis (`walk`, either
+mode): whatever a statement asks the context for is reported afterwards (or is the name of a
+self-referential macro, or is promised by an enclosing recursive loop / a block of the
+template), and the analysis' notion of "assigned" stays justified (C18). -/
 namespace MJ.Meta
 
-/-- result `r = (new top frame, look-ups)` of executing a piece of code from frame `top` over
-`below`, against the tracker `st'` after walking the same piece; `ex` = exception names -/
-structure Sim (top : Frame) (below : List Frame) (r : Frame × List String) (st' : St)
-    (ex : List String) : Prop where
-  inv : Inv r.1 below st'
-  grow : ∀ x ∈ top, x ∈ r.1
-  reads : ∀ x ∈ r.2, x ∈ st'.out ∨ x ∈ ex
-  unb : ∀ x ∈ r.2, bound top below x = false ∨ x ∈ ex
+/-- result `r` of executing a piece of code from frame `top` over `below`, against the tracker
+`st'` after walking the same piece; `ex` = exception names of this piece, `P` = names that
+an enclosing construct accounts for (the report of an enclosing recursive loop, the free names
+of the blocks, self-referential macros elsewhere), `Q` ⊆ `P` = those of them that may be read
+although a frame binds them (block bodies and macro bodies run in other frames) -/
+structure Sim (top : Frame) (below : List Frame) (r : Res) (st' : St)
+    (ex : List String) (P Q : String → Prop) : Prop where
+  inv : r.stopped = false → Inv r.top below st'
+  grow : ∀ x ∈ top, x ∈ r.top
+  reads : ∀ x ∈ r.reads, st'.reported x ∨ x ∈ ex ∨ P x
+  unb : ∀ x ∈ r.reads, bound top below x = false ∨ x ∈ ex ∨ Q x
 
-theorem Sim.nil {top : Frame} {below : List Frame} {st : St} (h : Inv top below st)
-    (ex : List String) : Sim top below (top, []) st ex :=
-  ⟨h, fun _ hx => hx, fun x hx => (by cases hx), fun x hx => (by cases hx)⟩
+section
+variable {top : Frame} {below : List Frame} {P Q : String → Prop}
 
-theorem Sim.ex_mono {top : Frame} {below : List Frame} {r : Frame × List String} {st : St}
-    {ex ex' : List String} (h : Sim top below r st ex) (he : ∀ x ∈ ex, x ∈ ex') :
-    Sim top below r st ex' :=
-  ⟨h.inv, h.grow, fun x hx => (h.reads x hx).imp id (he x), fun x hx => (h.unb x hx).imp id (he x)⟩
+theorem Sim.nil {st : St} (h : Inv top below st) (ex : List String) (P Q : String → Prop) :
+    Sim top below ⟨top, [], false⟩ st ex P Q :=
+  ⟨fun _ => h, fun _ hx => hx, fun x hx => (by cases hx), fun x hx => (by cases hx)⟩
 
-theorem Sim.seq {top : Frame} {below : List Frame} {r1 r2 : Frame × List String} {st1 st2 : St}
-    {ex1 ex2 : List String} (h1 : Sim top below r1 st1 ex1) (h2 : Sim r1.1 below r2 st2 ex2)
-    (hout : ∀ x ∈ st1.out, x ∈ st2.out) : Sim top below (r2.1, r1.2 ++ r2.2) st2 (ex1 ++ ex2) := by
+theorem Sim.ex_mono {r : Res} {st : St} {ex ex' : List String} {P' Q' : String → Prop}
+    (h : Sim top below r st ex P Q) (he : ∀ x ∈ ex, x ∈ ex') (hp : ∀ x, P x → P' x)
+    (hq : ∀ x, Q x → Q' x) : Sim top below r st ex' P' Q' :=
+  ⟨h.inv, h.grow, fun x hx => (h.reads x hx).imp id (Or.imp (he x) (hp x)),
+    fun x hx => (h.unb x hx).imp id (Or.imp (he x) (hq x))⟩
+
+/-- sequencing; the second part only runs when the first did not stop -/
+theorem Sim.seq {r1 r2 : Res} {st1 st2 : St} {ex1 ex2 : List String}
+    (h1 : Sim top below r1 st1 ex1 P Q) (h2 : Sim r1.top below r2 st2 ex2 P Q)
+    (hrep : ∀ x, st1.reported x → st2.reported x) :
+    Sim top below ⟨r2.top, r1.reads ++ r2.reads, r2.stopped⟩ st2 (ex1 ++ ex2) P Q := by
   refine ⟨h2.inv, fun x hx => h2.grow x (h1.grow x hx), ?_, ?_⟩
   · intro x hx
     simp only [List.mem_append] at hx ⊢
     rcases hx with hx | hx
-    · rcases h1.reads x hx with h | h
-      · exact Or.inl (hout x h)
-      · exact Or.inr (Or.inl h)
-    · rcases h2.reads x hx with h | h
+    · rcases h1.reads x hx with h | h | h
+      · exact Or.inl (hrep x h)
+      · exact Or.inr (Or.inl (Or.inl h))
+      · exact Or.inr (Or.inr h)
+    · rcases h2.reads x hx with h | h | h
       · exact Or.inl h
+      · exact Or.inr (Or.inl (Or.inr h))
       · exact Or.inr (Or.inr h)
   · intro x hx
     simp only [List.mem_append] at hx ⊢
     rcases hx with hx | hx
-    · exact (h1.unb x hx).imp id Or.inl
-    · rcases h2.unb x hx with h | h
+    · rcases h1.unb x hx with h | h | h
+      · exact Or.inl h
+      · exact Or.inr (Or.inl (Or.inl h))
+      · exact Or.inr (Or.inr h)
+    · rcases h2.unb x hx with h | h | h
       · exact Or.inl (unbound_anti h1.grow h)
+      · exact Or.inr (Or.inl (Or.inr h))
       · exact Or.inr (Or.inr h)
 
+/-- the first part stopped: the tracker walks on, the execution does not -/
+theorem Sim.stop {r1 : Res} {st1 st2 : St} {ex1 : List String} (ex2 : List String)
+    (h1 : Sim top below r1 st1 ex1 P Q) (hrep : ∀ x, st1.reported x → st2.reported x) :
+    Sim top below ⟨r1.top, r1.reads, true⟩ st2 (ex1 ++ ex2) P Q := by
+  refine ⟨fun h => (by cases h), h1.grow, ?_, ?_⟩
+  · intro x hx
+    rcases h1.reads x hx with h | h | h
+    · exact Or.inl (hrep x h)
+    · exact Or.inr (Or.inl (List.mem_append_left _ h))
+    · exact Or.inr (Or.inr h)
+  · intro x hx
+    rcases h1.unb x hx with h | h | h
+    · exact Or.inl h
+    · exact Or.inr (Or.inl (List.mem_append_left _ h))
+    · exact Or.inr (Or.inr h)
+
+/-- look-ups in front of a piece of code that are known to be fine -/
+theorem Sim.prepend {r : Res} {st : St} {ex : List String} (r0 : List String)
+    (h : Sim top below r st ex P Q)
+    (h0 : ∀ x ∈ r0, (st.reported x ∨ x ∈ ex ∨ P x) ∧ (bound top below x = false ∨ x ∈ ex ∨ Q x)) :
+    Sim top below ⟨r.top, r0 ++ r.reads, r.stopped⟩ st ex P Q := by
+  refine ⟨h.inv, h.grow, ?_, ?_⟩
+  · intro x hx
+    simp only [List.mem_append] at hx
+    rcases hx with hx | hx
+    · exact (h0 x hx).1
+    · exact h.reads x hx
+  · intro x hx
+    simp only [List.mem_append] at hx
+    rcases hx with hx | hx
+    · exact (h0 x hx).2
+    · exact h.unb x hx
+
 /-- same stack, larger report -/
-theorem Sim.retarget {top : Frame} {below : List Frame} {r : Frame × List String} {a b : St}
-    {ex : List String} (h : Sim top below r a ex) (he : b.assigned = a.assigned)
-    (ho : ∀ x ∈ a.out, x ∈ b.out) : Sim top below r b ex :=
-  ⟨h.inv.of_assigned_eq he ho, h.grow, fun x hx => (h.reads x hx).imp (ho x) id, h.unb⟩
+theorem Sim.retarget {r : Res} {a b : St} {ex : List String}
+    (h : Sim top below r a ex P Q) (he : b.assigned = a.assigned)
+    (ho : ∀ x, a.reported x → b.reported x) : Sim top below r b ex P Q :=
+  ⟨fun hs => (h.inv hs).of_assigned_eq he ho, h.grow, fun x hx => (h.reads x hx).imp (ho x) id,
+    h.unb⟩
 
 /-- the analysis pops the scope it pushed for a body that ran in the current frame -/
-theorem Sim.scope {top : Frame} {below : List Frame} {r : Frame × List String} {a b : St}
-    {ex : List String} (ha : Inv top below a) (hs : Step a.push b) (h : Sim top below r b ex) :
-    Sim top below r b.pop ex := by
+theorem Sim.scope {r : Res} {a b : St} {ex : List String}
+    (ha : Inv top below a) (hs : Step a.push b) (h : Sim top below r b ex P Q) :
+    Sim top below r b.pop ex P Q := by
   obtain ⟨e, o, _⟩ := step_scope hs
-  exact ⟨(ha.mono_top h.grow).of_assigned_eq e o, h.grow, h.reads, h.unb⟩
+  exact ⟨fun _ => (ha.mono_top h.grow).of_assigned_eq e o, h.grow, h.reads, h.unb⟩
 
-theorem sim_visitVars {top : Frame} {below : List Frame} {st : St} (xs : List String)
-    (h : Inv top below st) : Sim top below (top, lookups top below xs) (visitVars st xs) [] := by
-  obtain ⟨h1, h2⟩ := inv_visitVars xs h
-  exact ⟨h1, fun _ hx => hx, fun x hx => Or.inl (h2 x hx),
+theorem sim_visitLeaves {st : St} (ls : List Leaf) (P Q : String → Prop)
+    (h : Inv top below st) :
+    Sim top below ⟨top, lookups top below (roots ls), false⟩ (visitLeaves st ls) [] P Q := by
+  obtain ⟨h1, h2⟩ := inv_visitLeaves ls h
+  exact ⟨fun _ => h1, fun _ hx => hx, fun x hx => Or.inl (h2 x hx),
     fun x hx => Or.inl ((mem_lookups _ _ _ _).1 hx).2⟩
 
+/-- facts about the look-ups of an expression list, for `Sim.prepend` -/
+theorem lookups_ok {st st' : St} (ls : List Leaf) (ex : List String) (P Q : String → Prop)
+    (h : Inv top below st) (hrep : ∀ x, (visitLeaves st ls).reported x → st'.reported x) :
+    ∀ x ∈ lookups top below (roots ls),
+      (st'.reported x ∨ x ∈ ex ∨ P x) ∧ (bound top below x = false ∨ x ∈ ex ∨ Q x) :=
+  fun x hx => ⟨Or.inl (hrep x ((inv_visitLeaves ls h).2 x hx)),
+    Or.inl ((mem_lookups _ _ _ _).1 hx).2⟩
+
+end
+
+/-- pairs (frame, look-ups) of the binding helpers as results -/
+def Res.ofPair (p : Frame × List String) : Res := ⟨p.1, p.2, false⟩
+
 theorem sim_atoms {top : Frame} {below : List Frame} (as : List TAtom) {st : St}
-    (h : Inv top below st) :
-    Sim top below (bindAtoms top below as) (as.foldl trackAtom st) [] := by
+    (P Q : String → Prop) (h : Inv top below st) :
+    Sim top below (Res.ofPair (bindAtoms top below as)) (as.foldl trackAtom st) [] P Q := by
   induction as generalizing top st with
-  | nil => exact Sim.nil h []
+  | nil => exact Sim.nil h [] P Q
   | cons a as ih =>
     cases a with
     | name x =>
@@ -77,34 +141,36 @@ theorem sim_atoms {top : Frame} {below : List Frame} (as : List TAtom) {st : St}
           (unbound_anti (fun z hz => List.mem_cons_of_mem _ hz)) id⟩
     | look e =>
       simp only [bindAtoms, List.foldl_cons, trackAtom]
-      have h1 := sim_visitVars (vars e) h
-      have h2 := ih h1.inv
-      have := Sim.seq h1 h2 (step_trackAtoms _ as).out
-      simpa [visitExpr] using this
+      have h1 := sim_visitLeaves (nvars e) P Q h
+      have h2 := ih (h1.inv rfl)
+      have := Sim.seq h1 h2 (step_trackAtoms _ as).rep
+      simpa [visitExpr, Res.ofPair, vars] using this
 
 theorem sim_trackAssign {top : Frame} {below : List Frame} (t : Expr) {st : St}
-    (h : Inv top below st) :
-    Sim top below (bindAtoms top below (targetAtoms t)) (trackAssign st t) [] :=
-  sim_atoms _ h
+    (P Q : String → Prop) (h : Inv top below st) :
+    Sim top below (Res.ofPair (bindAtoms top below (targetAtoms t))) (trackAssign st t) [] P Q :=
+  sim_atoms _ P Q h
 
 theorem sim_with {top : Frame} {below : List Frame} (as : List (Expr × Expr)) {st : St}
-    (h : Inv top below st) : Sim top below (bindWith top below as) (withAssigns st as) [] := by
+    (P Q : String → Prop) (h : Inv top below st) :
+    Sim top below (Res.ofPair (bindWith top below as)) (withAssigns st as) [] P Q := by
   induction as generalizing top st with
-  | nil => simpa [bindWith, withAssigns] using Sim.nil h []
+  | nil => simpa [bindWith, withAssigns, Res.ofPair] using Sim.nil h [] P Q
   | cons p as ih =>
     obtain ⟨t, e⟩ := p
     simp only [bindWith, withAssigns]
-    have h1 := sim_visitVars (vars e) h
-    have h2 := sim_trackAssign t h1.inv
-    have h12 := Sim.seq h1 h2 (step_trackAssign _ t).out
-    have h3 := ih h12.inv
-    have := Sim.seq h12 h3 (step_withAssigns _ as).out
-    simpa [visitExpr, List.append_assoc] using this
+    have h1 := sim_visitLeaves (nvars e) P Q h
+    have h2 := sim_trackAssign t P Q (h1.inv rfl)
+    have h12 := Sim.seq h1 h2 (step_trackAssign _ t).rep
+    have h3 := ih (h12.inv rfl)
+    have := Sim.seq h12 h3 (step_withAssigns _ as).rep
+    simpa [visitExpr, List.append_assoc, Res.ofPair, vars] using this
 
 theorem sim_args {top : Frame} {below : List Frame} (as : List String) (ds : List Expr) {st : St}
-    (h : Inv top below st) : Sim top below (bindArgs top below as ds) (macroArgs st as ds) [] := by
+    (P Q : String → Prop) (h : Inv top below st) :
+    Sim top below (Res.ofPair (bindArgs top below as ds)) (macroArgs st as ds) [] P Q := by
   induction as generalizing top st ds with
-  | nil => simpa [bindArgs, macroArgs] using Sim.nil h []
+  | nil => simpa [bindArgs, macroArgs, Res.ofPair] using Sim.nil h [] P Q
   | cons a as ih =>
     cases ds with
     | nil =>
@@ -115,34 +181,189 @@ theorem sim_args {top : Frame} {below : List Frame} (as : List String) (ds : Lis
           (unbound_anti (fun z hz => List.mem_cons_of_mem _ hz)) id⟩
     | cons d ds =>
       simp only [bindArgs, macroArgs]
-      have h1 := sim_visitVars (vars d) h
-      have h2 := ih ds (inv_assign a h1.inv)
-      have h2' : Sim top below (bindArgs (a :: top) below as ds)
-          (macroArgs ((visitExpr st d).assign a) as ds) [] :=
+      have h1 := sim_visitLeaves (nvars d) P Q h
+      have h2 := ih ds (inv_assign a (h1.inv rfl))
+      have h2' : Sim top below (Res.ofPair (bindArgs (a :: top) below as ds))
+          (macroArgs ((visitExpr st d).assign a) as ds) [] P Q :=
         ⟨h2.inv, fun y hy => h2.grow y (List.mem_cons_of_mem _ hy), h2.reads,
           fun y hy => (h2.unb y hy).imp
             (unbound_anti (fun z hz => List.mem_cons_of_mem _ hz)) id⟩
-      have := Sim.seq h1 h2' (Step.trans (step_assign _ a) (step_macroArgs _ as ds)).out
-      simpa using this
+      have := Sim.seq h1 h2' (Step.trans (step_assign _ a) (step_macroArgs _ as ds)).rep
+      simpa [Res.ofPair, vars] using this
+
+/-! ### re-entries: recursive loops and blocks -/
+
+/-- names a frame binds after the target atoms were stored -/
+theorem bound_bindAtoms (f : Frame) (bl : List Frame) (as : List TAtom) (x : String) :
+    bound (bindAtoms f bl as).1 bl x = true ↔
+      (∃ a ∈ as, a = TAtom.name x) ∨ bound f bl x = true := by
+  induction as generalizing f with
+  | nil => simp [bindAtoms]
+  | cons a as ih =>
+    cases a with
+    | name y =>
+      simp only [bindAtoms]
+      rw [ih]
+      constructor
+      · rintro (⟨a, ha, hax⟩ | h)
+        · exact Or.inl ⟨a, List.mem_cons_of_mem _ ha, hax⟩
+        · rw [bound_iff] at h
+          rcases h with h | h
+          · simp only [List.mem_cons] at h
+            rcases h with rfl | h
+            · exact Or.inl ⟨_, by simp, rfl⟩
+            · exact Or.inr ((bound_iff _ _ _).2 (Or.inl h))
+          · exact Or.inr ((bound_iff _ _ _).2 (Or.inr h))
+      · rintro (⟨a, ha, hax⟩ | h)
+        · simp only [List.mem_cons] at ha
+          rcases ha with rfl | ha
+          · injection hax with hax
+            subst hax
+            exact Or.inr (by simp [bound])
+          · exact Or.inl ⟨a, ha, hax⟩
+        · exact Or.inr (bound_mono (fun z hz => List.mem_cons_of_mem _ hz) h)
+    | look e =>
+      simp only [bindAtoms]
+      rw [ih]
+      constructor
+      · rintro (⟨a, ha, hax⟩ | h)
+        · exact Or.inl ⟨a, List.mem_cons_of_mem _ ha, hax⟩
+        · exact Or.inr h
+      · rintro (⟨a, ha, hax⟩ | h)
+        · simp only [List.mem_cons] at ha
+          rcases ha with rfl | ha
+          · cases hax
+          · exact Or.inl ⟨a, ha, hax⟩
+        · exact Or.inr h
+
+/-- a loop frame on top of frames that bind more binds more -/
+theorem loop_frame_mono {top top' : Frame} {below below' : List Frame} (f : Frame)
+    (hb : ∀ x, bound top below x = true → bound top' below' x = true) (x : String)
+    (h : bound f (top :: below) x = true) : bound f (top' :: below') x = true := by
+  rw [bound_cons_iff] at *
+  exact h.imp id (hb x)
+
+/-- analysis-side ghost of a running recursive loop: the tracker in front of `track_assign`
+of the loop target, and the loop filter -/
+structure Ghost where
+  sB : St
+  filter : Option Expr
+
+/-- the tracker at the start of the loop body -/
+def Ghost.sE (g : Ghost) (atoms : List TAtom) : St :=
+  (visitOpt (atoms.foldl trackAtom g.sB) g.filter).assign "loop"
+
+
+/-- every running recursive loop can be re-entered from the current frames: its tracker is
+justified by a loop frame on top of them, what its body reports is accounted for by `P`, the
+self-referential macros in its body by `Q` -/
+def RcOK : RC → List Ghost → Frame → List Frame → (String → Prop) → (String → Prop) → Prop
+  | [], [], _, _, _, _ => True
+  | e :: rc, g :: G, top, below, P, Q =>
+      (Inv ["loop"] (top :: below) g.sB ∧
+        (∀ x, (walkList (g.sE e.1) e.2).reported x → P x) ∧ (∀ x ∈ selfRefsL e.2, Q x)) ∧
+      RcOK rc G top below P Q
+  | _, _, _, _, _, _ => False
+
+theorem RcOK.mono {rc : RC} {G : List Ghost} {top top' : Frame} {below below' : List Frame}
+    {P P' Q Q' : String → Prop} (h : RcOK rc G top below P Q)
+    (hb : ∀ x, bound top below x = true → bound top' below' x = true)
+    (hp : ∀ x, P x → P' x) (hq : ∀ x, Q x → Q' x) : RcOK rc G top' below' P' Q' := by
+  induction rc generalizing G with
+  | nil => cases G <;> simp_all [RcOK]
+  | cons e rc ih =>
+    cases G with
+    | nil => simp [RcOK] at h
+    | cons g G =>
+      simp only [RcOK] at h ⊢
+      obtain ⟨⟨h1, h2, h3⟩, h4⟩ := h
+      exact ⟨⟨h1.of_bound (loop_frame_mono _ hb), fun x hx => hp x (h2 x hx),
+        fun x hx => hq x (h3 x hx)⟩, ih h4⟩
+
+theorem RcOK.drop {rc : RC} {G : List Ghost} {top : Frame} {below : List Frame}
+    {P Q : String → Prop} (h : RcOK rc G top below P Q) (k : Nat) :
+    RcOK (rc.drop k) (G.drop k) top below P Q := by
+  induction k generalizing rc G with
+  | zero => simpa using h
+  | succ k ih =>
+    cases rc with
+    | nil => cases G <;> simp_all [RcOK]
+    | cons e rc =>
+      cases G with
+      | nil => simp [RcOK] at h
+      | cons g G =>
+        simp only [RcOK] at h
+        simpa using ih h.2
+
+/-- the ambient exceptions: `Q ⊆ P`, and `Q` accounts for the blocks of the template -/
+structure Ctx (bt : BT) (P Q : String → Prop) : Prop where
+  qp : ∀ x, Q x → P x
+  free : ∀ body ∈ bt, ∀ x ∈ (walkList St.init body).out, Q x
+  self : ∀ body ∈ bt, ∀ x ∈ selfRefsL body, Q x
+
+theorem Ctx.mono {bt : BT} {P P' Q Q' : String → Prop} (h : Ctx bt P Q)
+    (hq : ∀ x, Q x → Q' x) (hqp : ∀ x, Q' x → P' x) : Ctx bt P' Q' :=
+  ⟨hqp, fun body hb x hx => hq x (h.free body hb x hx), fun body hb x hx => hq x (h.self body hb x hx)⟩
+
+theorem Ctx.same {bt : BT} {P Q : String → Prop} (h : Ctx bt P Q) : Ctx bt Q Q :=
+  ⟨fun _ hx => hx, h.free, h.self⟩
+
+/-- the handler only produces look-ups that are accounted for -/
+def KOK (K : Reenter) : Prop :=
+  ∀ (P Q : String → Prop) (rc : RC) (G : List Ghost) (bt : BT) (top : Frame) (below : List Frame)
+    (reqs : List Ch), Ctx bt P Q → RcOK rc G top below P Q →
+    ∀ x ∈ K rc bt top below reqs, P x ∧ (bound top below x = false ∨ Q x)
 
 /-- induction hypothesis for a sub-body -/
 def BodyOK (body : List Stmt) : Prop :=
-  ∀ (st : St) (top : Frame) (below : List Frame) (cs : List Ch), Inv top below st →
-    Sim top below (execList top below cs body) (walkList st body) (selfRefsL body)
+  ∀ (K : Reenter), KOK K → ∀ (P Q : String → Prop) (rc : RC) (G : List Ghost) (bt : BT) (st : St)
+    (top : Frame) (below : List Frame) (cs : List Ch),
+    Ctx bt P Q → RcOK rc G top below P Q → Inv top below st →
+    Sim top below (execList K rc bt top below cs body) (walkList st body) (selfRefsL body) P Q
 
-/-- a body that runs in the current frame while the analysis gives it a scope of its own -/
-theorem sim_scoped_body {body : List Stmt} (hb : BodyOK body) {top : Frame} {below : List Frame}
-    {a : St} (ha : Inv top below a) (cs : List Ch) :
-    Sim top below (execList top below cs body) (walkList a.push body).pop (selfRefsL body) :=
-  Sim.scope ha (step_walkList body _) (hb _ _ _ cs ha.push)
+/-- entering a loop body (first entry or re-entry): from the tracker in front of the target to
+the tracker at the body start, against a loop frame on top of the current frames -/
+theorem loop_entry {top : Frame} {below : List Frame} (g : Ghost) (atoms : List TAtom)
+    (h : Inv ["loop"] (top :: below) g.sB) :
+    Inv (bindAtoms ["loop"] (top :: below) atoms).1 (top :: below) (g.sE atoms) ∧
+    (∀ x ∈ (bindAtoms ["loop"] (top :: below) atoms).2,
+      (atoms.foldl trackAtom g.sB).reported x ∧ bound top below x = false) := by
+  have hit := sim_atoms atoms (fun _ => False) (fun _ => False) h
+  have hiD := (inv_visitLeaves (nvarsOpt g.filter) (hit.inv rfl)).1
+  have hloop : bound (bindAtoms ["loop"] (top :: below) atoms).1 (top :: below) "loop" = true := by
+    rw [bound_iff]; exact Or.inl (hit.grow "loop" (by simp))
+  refine ⟨inv_assign_bound "loop" hiD hloop, fun x hx => ?_⟩
+  have hr := hit.reads x hx
+  have hu := hit.unb x hx
+  refine ⟨hr.resolve_right (by simp), ?_⟩
+  have := hu.resolve_right (by simp)
+  exact unbound_of_push this
+
+theorem Sim.stopped_retarget {top : Frame} {below : List Frame} {P Q : String → Prop} {r : Res}
+    {a b : St} {ex : List String} (h : Sim top below r a ex P Q) (hs : r.stopped = true)
+    (ho : ∀ x, a.reported x → b.reported x) : Sim top below r b ex P Q :=
+  ⟨fun hn => (by rw [hs] at hn; cases hn), h.grow, fun x hx => (h.reads x hx).imp (ho x) id, h.unb⟩
 
 theorem pop_out (st : St) : st.pop.out = st.out := rfl
 
+section
+variable {K : Reenter} (hK : KOK K) {P Q : String → Prop} {rc : RC} {G : List Ghost} {bt : BT}
+  {top : Frame} {below : List Frame}
+include hK
+
+/-- a body that runs in the current frame while the analysis gives it a scope of its own -/
+theorem sim_scoped_body {body : List Stmt} (hb : BodyOK body) (hbt : Ctx bt P Q)
+    (hrc : RcOK rc G top below P Q) {a : St} (ha : Inv top below a) (cs : List Ch) :
+    Sim top below (execList K rc bt top below cs body) (walkList a.push body).pop
+      (selfRefsL body) P Q :=
+  Sim.scope ha (step_walkList body _) (hb K hK P Q rc G bt _ _ _ cs hbt hrc ha.push)
+
 theorem sim_if (e : Expr) (t f : List Stmt) (ht : BodyOK t) (hf : BodyOK f)
-    (st : St) (top : Frame) (below : List Frame) (c : Ch) (h : Inv top below st) :
-    Sim top below (exec top below c (.ifCond e t f)) (walk st (.ifCond e t f))
-      (selfRefs (.ifCond e t f)) := by
-  have hv := sim_visitVars (vars e) h
+    (st : St) (c : Ch) (hbt : Ctx bt P Q) (hrc : RcOK rc G top below P Q)
+    (h : Inv top below st) :
+    Sim top below (exec K rc bt top below c (.ifCond e t f)) (walk st (.ifCond e t f))
+      (selfRefs (.ifCond e t f)) P Q := by
+  have hv := sim_visitLeaves (nvars e) P Q h
   have hst2 : Step (visitExpr st e) (walkList (visitExpr st e).push t).pop :=
     step_of_scope (step_walkList t _)
   have hst3 : Step (walkList (visitExpr st e).push t).pop
@@ -150,91 +371,121 @@ theorem sim_if (e : Expr) (t f : List Stmt) (ht : BodyOK t) (hf : BodyOK f)
     step_of_scope (step_walkList f _)
   obtain ⟨e2, o2, _⟩ := step_scope (step_walkList t (visitExpr st e).push)
   obtain ⟨e3, o3, _⟩ := step_scope (step_walkList f (walkList (visitExpr st e).push t).pop.push)
+  have hl := lookups_ok (st' := (walkList (walkList (visitExpr st e).push t).pop.push f).pop)
+    (nvars e) (selfRefsL t ++ selfRefsL f) P Q h (Step.trans hst2 hst3).rep
   simp only [walk, selfRefs]
   by_cases hn : c.n = 0
   · simp only [exec, hn, if_true]
     have hi2 : Inv top below (walkList (visitExpr st e).push t).pop :=
-      hv.inv.of_assigned_eq e2 o2
-    have h3 := sim_scoped_body hf hi2 c.sub0
-    have := Sim.seq hv h3 (Step.trans hst2 hst3).out
-    exact this.ex_mono (fun x hx => by simp at hx ⊢; exact Or.inr hx)
+      (hv.inv rfl).of_assigned_eq e2 o2
+    have h3 := (sim_scoped_body hK hf hbt hrc hi2 c.sub0).ex_mono
+      (ex' := selfRefsL t ++ selfRefsL f) (fun x hx => List.mem_append_right _ hx)
+      (fun _ hp => hp) (fun _ hp => hp)
+    exact Sim.prepend _ h3 hl
   · simp only [exec, hn, if_false]
-    have h2 := sim_scoped_body ht hv.inv c.sub0
-    have h2' := h2.retarget e3 o3
-    have := Sim.seq hv h2' (Step.trans hst2 hst3).out
-    exact this.ex_mono (fun x hx => by simp at hx ⊢; exact Or.inl hx)
+    have h2 := ((sim_scoped_body hK ht hbt hrc (hv.inv rfl) c.sub0).retarget e3 o3).ex_mono
+      (ex' := selfRefsL t ++ selfRefsL f) (fun x hx => List.mem_append_left _ hx)
+      (fun _ hp => hp) (fun _ hp => hp)
+    exact Sim.prepend _ h2 hl
 
 theorem sim_autoEscape (e : Expr) (body : List Stmt) (hb : BodyOK body)
-    (st : St) (top : Frame) (below : List Frame) (c : Ch) (h : Inv top below st) :
-    Sim top below (exec top below c (.autoEscape e body)) (walk st (.autoEscape e body))
-      (selfRefs (.autoEscape e body)) := by
-  have hv := sim_visitVars (vars e) h
-  have h2 := sim_scoped_body hb hv.inv c.sub0
-  have := Sim.seq hv h2 (step_of_scope (step_walkList body (visitExpr st e).push)).out
-  simpa only [walk, exec, selfRefs, List.nil_append, visitExpr] using this
+    (st : St) (c : Ch) (hbt : Ctx bt P Q) (hrc : RcOK rc G top below P Q)
+    (h : Inv top below st) :
+    Sim top below (exec K rc bt top below c (.autoEscape e body)) (walk st (.autoEscape e body))
+      (selfRefs (.autoEscape e body)) P Q := by
+  have hv := sim_visitLeaves (nvars e) P Q h
+  have h2 := sim_scoped_body hK hb hbt hrc (hv.inv rfl) c.sub0
+  have hl := lookups_ok (st' := (walkList (visitExpr st e).push body).pop)
+    (nvars e) (selfRefsL body) P Q h (step_of_scope (step_walkList body (visitExpr st e).push)).rep
+  simp only [walk, exec, selfRefs]
+  exact Sim.prepend _ h2 hl
 
 theorem sim_filterBlock (filter : Expr) (body : List Stmt) (hb : BodyOK body)
-    (st : St) (top : Frame) (below : List Frame) (c : Ch) (h : Inv top below st) :
-    Sim top below (exec top below c (.filterBlock filter body)) (walk st (.filterBlock filter body))
-      (selfRefs (.filterBlock filter body)) := by
-  have h1 := sim_scoped_body hb h c.sub0
-  have h2 := sim_visitVars (vars filter) h1.inv
-  have := Sim.seq h1 h2 (step_visitVars _ _).out
-  simpa only [walk, exec, selfRefs, List.append_nil, visitExpr] using this
+    (st : St) (c : Ch) (hbt : Ctx bt P Q) (hrc : RcOK rc G top below P Q)
+    (h : Inv top below st) :
+    Sim top below (exec K rc bt top below c (.filterBlock filter body))
+      (walk st (.filterBlock filter body)) (selfRefs (.filterBlock filter body)) P Q := by
+  have h1 := sim_scoped_body hK hb hbt hrc h c.sub0
+  simp only [walk, selfRefs]
+  by_cases hs : (execList K rc bt top below c.sub0 body).stopped = true
+  · simp only [exec, hs, if_true]
+    exact h1.stopped_retarget hs (step_visitExpr _ filter).rep
+  · have hs' : (execList K rc bt top below c.sub0 body).stopped = false := by
+      cases hh : (execList K rc bt top below c.sub0 body).stopped <;> simp_all
+    simp only [exec, hs', Bool.false_eq_true, if_false]
+    have h2 := sim_visitLeaves (nvars filter) P Q (h1.inv hs')
+    have := Sim.seq h1 h2 (step_visitLeaves _ _).rep
+    simpa only [List.append_nil, visitExpr, vars] using this
 
 theorem sim_setBlock (target : Expr) (filter : Option Expr) (body : List Stmt) (hb : BodyOK body)
-    (st : St) (top : Frame) (below : List Frame) (c : Ch) (h : Inv top below st) :
-    Sim top below (exec top below c (.setBlock target filter body))
-      (walk st (.setBlock target filter body)) (selfRefs (.setBlock target filter body)) := by
-  have h1 := sim_scoped_body hb h c.sub0
-  have h2 := sim_visitVars (varsOpt filter) h1.inv
-  have h12 := Sim.seq h1 h2 (step_visitVars _ _).out
-  have h3 := sim_trackAssign target h12.inv
-  have := Sim.seq h12 h3 (step_trackAssign _ target).out
-  simpa only [walk, exec, selfRefs, List.append_nil, visitOpt, List.append_assoc] using this
+    (st : St) (c : Ch) (hbt : Ctx bt P Q) (hrc : RcOK rc G top below P Q)
+    (h : Inv top below st) :
+    Sim top below (exec K rc bt top below c (.setBlock target filter body))
+      (walk st (.setBlock target filter body)) (selfRefs (.setBlock target filter body)) P Q := by
+  have h1 := sim_scoped_body hK hb hbt hrc h c.sub0
+  simp only [walk, selfRefs]
+  by_cases hs : (execList K rc bt top below c.sub0 body).stopped = true
+  · simp only [exec, hs, if_true]
+    exact h1.stopped_retarget hs
+      (Step.trans (step_visitOpt _ filter) (step_trackAssign _ target)).rep
+  · have hs' : (execList K rc bt top below c.sub0 body).stopped = false := by
+      cases hh : (execList K rc bt top below c.sub0 body).stopped <;> simp_all
+    simp only [exec, hs', Bool.false_eq_true, if_false]
+    have h2 := sim_visitLeaves (nvarsOpt filter) P Q (h1.inv hs')
+    have h12 := Sim.seq h1 h2 (step_visitLeaves _ _).rep
+    have h3 := sim_trackAssign target P Q (h12.inv rfl)
+    have := Sim.seq h12 h3 (step_trackAssign _ target).rep
+    simpa only [List.append_nil, visitOpt, varsOpt, List.append_assoc, Res.ofPair] using this
 
+omit hK in
 theorem sim_set (target e : Expr)
-    (st : St) (top : Frame) (below : List Frame) (c : Ch) (h : Inv top below st) :
-    Sim top below (exec top below c (.set target e)) (walk st (.set target e))
-      (selfRefs (.set target e)) := by
-  have h1 := sim_visitVars (vars e) h
-  have h2 := sim_trackAssign target h1.inv
-  have := Sim.seq h1 h2 (step_trackAssign _ target).out
-  simpa only [walk, exec, selfRefs, List.append_nil, visitExpr] using this
+    (st : St) (c : Ch) (h : Inv top below st) :
+    Sim top below (exec K rc bt top below c (.set target e)) (walk st (.set target e))
+      (selfRefs (.set target e)) P Q := by
+  have h1 := sim_visitLeaves (nvars e) P Q h
+  have h2 := sim_trackAssign target P Q (h1.inv rfl)
+  have := Sim.seq h1 h2 (step_trackAssign _ target).rep
+  simpa only [walk, exec, selfRefs, List.append_nil, visitExpr, vars, Res.ofPair] using this
 
 theorem sim_withBlock (assigns : List (Expr × Expr)) (body : List Stmt) (hb : BodyOK body)
-    (st : St) (top : Frame) (below : List Frame) (c : Ch) (h : Inv top below st) :
-    Sim top below (exec top below c (.withBlock assigns body)) (walk st (.withBlock assigns body))
-      (selfRefs (.withBlock assigns body)) := by
-  have h1 := sim_with assigns h.push.push_frame
-  have h2 := hb _ _ _ c.sub0 h1.inv
-  have h12 := Sim.seq h1 h2 (step_walkList body _).out
+    (st : St) (c : Ch) (hbt : Ctx bt P Q) (hrc : RcOK rc G top below P Q)
+    (h : Inv top below st) :
+    Sim top below (exec K rc bt top below c (.withBlock assigns body))
+      (walk st (.withBlock assigns body)) (selfRefs (.withBlock assigns body)) P Q := by
+  have h1 := sim_with assigns P Q h.push.push_frame
+  have hrc' : RcOK rc G (bindWith [] (top :: below) assigns).1 (top :: below) P Q :=
+    hrc.mono (fun x hx => (bound_cons_iff _ _ _ _).2 (Or.inr hx)) (fun _ hp => hp) (fun _ hp => hp)
+  have h2 := hb K hK P Q rc G bt _ _ _ c.sub0 hbt hrc' (h1.inv rfl)
+  have h12 := Sim.seq h1 h2 (step_walkList body _).rep
   obtain ⟨e, o, _⟩ := step_scope
     (Step.trans (step_withAssigns st.push assigns) (step_walkList body _))
   simp only [walk, exec, selfRefs]
-  refine ⟨h.of_assigned_eq e o, fun _ hx => hx, ?_, ?_⟩
+  refine ⟨fun _ => h.of_assigned_eq e o, fun _ hx => hx, ?_, ?_⟩
   · intro x hx
     have := h12.reads x hx
-    simpa [pop_out] using this
+    simpa [pop_reported] using this
   · intro x hx
     rcases h12.unb x hx with hu | hu
     · exact Or.inl (by rw [bound_push] at hu; exact hu)
     · exact Or.inr (by simpa using hu)
 
-theorem sim_for (target iter : Expr) (filter : Option Expr) (body els : List Stmt)
-    (hb : BodyOK body) (he : BodyOK els)
-    (st : St) (top : Frame) (below : List Frame) (c : Ch) (h : Inv top below st) :
-    Sim top below (exec top below c (.forLoop target iter filter body els))
-      (walk st (.forLoop target iter filter body els))
-      (selfRefs (.forLoop target iter filter body els)) := by
+theorem sim_for (target iter : Expr) (filter : Option Expr) (recursive : Bool)
+    (body els : List Stmt) (hb : BodyOK body) (he : BodyOK els)
+    (st : St) (c : Ch) (hbt : Ctx bt P Q) (hrc : RcOK rc G top below P Q)
+    (h : Inv top below st) :
+    Sim top below (exec K rc bt top below c (.forLoop target iter filter recursive body els))
+      (walk st (.forLoop target iter filter recursive body els))
+      (selfRefs (.forLoop target iter filter recursive body els)) P Q := by
   -- tracker states along `track_walk`
   generalize hsB : visitExpr st.push iter = sB
   generalize hsC : trackAssign sB target = sC
   generalize hsD : visitOpt sC filter = sD
   generalize hsF : walkList (sD.assign "loop") body = sF
   generalize hsH : walkList sF.pop.push els = sH
-  have hw : walk st (.forLoop target iter filter body els) = sH.pop := by
+  have hw : walk st (.forLoop target iter filter recursive body els) = sH.pop := by
     simp only [walk, hsB, hsC, hsD, hsF, hsH]
+  have hgE : (Ghost.mk sB filter).sE (targetAtoms target) = sD.assign "loop" := by
+    simp only [Ghost.sE]; rw [← hsD, ← hsC]; rfl
   have stAB : Step st.push sB := hsB ▸ step_visitExpr _ _
   have stBC : Step sB sC := hsC ▸ step_trackAssign _ _
   have stCD : Step sC sD := hsD ▸ step_visitOpt _ _
@@ -246,131 +497,131 @@ theorem sim_for (target iter : Expr) (filter : Option Expr) (body els : List Stm
   have hiG : Inv top below sF.pop := h.of_assigned_eq eG oG
   have hfin : Inv top below sH.pop := hiG.of_assigned_eq eH oH
   -- report inclusions up to the final tracker
-  have oF : ∀ x ∈ sF.out, x ∈ sH.pop.out := fun x hx => oH x hx
-  have oD : ∀ x ∈ sD.out, x ∈ sH.pop.out := fun x hx => oF x (stDF.out x hx)
-  have oC : ∀ x ∈ sC.out, x ∈ sH.pop.out := fun x hx => oD x (stCD.out x hx)
-  have oB : ∀ x ∈ sB.out, x ∈ sH.pop.out := fun x hx => oC x (stBC.out x hx)
-  -- the iterable, evaluated outside
-  have hv0 := sim_visitVars (vars iter) h.push
-  rw [show visitVars st.push (vars iter) = sB from hsB] at hv0
-  have r0_out : ∀ x ∈ lookups top below (vars iter), x ∈ sH.pop.out := fun x hx =>
-    oB x ((hv0.reads x hx).resolve_right (by simp))
-  have r0_unb : ∀ x ∈ lookups top below (vars iter), bound top below x = false := fun x hx =>
-    ((mem_lookups _ _ _ _).1 hx).2
-  -- the else body, in the outer frame
-  have hElse : ∀ cs, Sim top below (execList top below cs els) sH.pop (selfRefsL els) := by
-    intro cs
-    have := sim_scoped_body he hiG cs
-    rwa [hsH] at this
+  have oF : ∀ x, sF.reported x → sH.pop.reported x := fun x hx => oH x hx
+  have oD : ∀ x, sD.reported x → sH.pop.reported x := fun x hx => oF x (stDF.rep x hx)
+  have oC : ∀ x, sC.reported x → sH.pop.reported x := fun x hx => oD x (stCD.rep x hx)
+  have oB : ∀ x, sB.reported x → sH.pop.reported x := fun x hx => oC x (stBC.rep x hx)
   have exE : ∀ x ∈ selfRefsL els, x ∈ selfRefsL body ++ selfRefsL els :=
     fun x hx => List.mem_append_right _ hx
   have exB : ∀ x ∈ selfRefsL body, x ∈ selfRefsL body ++ selfRefsL els :=
     fun x hx => List.mem_append_left _ hx
+  -- the iterable, evaluated outside
+  have hiB : Inv top below sB := hsB ▸ (inv_visitLeaves (nvars iter) h.push).1
+  have r0_ok := lookups_ok (st' := sH.pop) (nvars iter) (selfRefsL body ++ selfRefsL els) P Q
+    h.push (fun x hx => oB x (by rw [← hsB]; exact hx))
+  -- the else body, in the outer frame
+  have hElse : ∀ cs, Sim top below (execList K rc bt top below cs els) sH.pop
+      (selfRefsL body ++ selfRefsL els) P Q := by
+    intro cs
+    have := sim_scoped_body hK he hbt hrc hiG cs
+    rw [hsH] at this
+    exact this.ex_mono exE (fun _ hp => hp) (fun _ hp => hp)
   rw [hw]
   simp only [selfRefs]
   by_cases hn0 : c.n = 0
   · simp only [exec, hn0, if_true]
-    have hE := hElse c.sub0
-    refine ⟨hE.inv, hE.grow, ?_, ?_⟩
-    · intro x hx
-      simp only [List.mem_append] at hx
-      rcases hx with hx | hx
-      · exact Or.inl (r0_out x hx)
-      · exact (hE.reads x hx).imp id (exE x)
-    · intro x hx
-      simp only [List.mem_append] at hx
-      rcases hx with hx | hx
-      · exact Or.inl (r0_unb x hx)
-      · exact (hE.unb x hx).imp id (exE x)
+    exact Sim.prepend _ (hElse c.sub0) r0_ok
   · -- filter pass: frame without `loop`
-    have hiB' : Inv [] (top :: below) sB := hv0.inv.push_frame
-    have hft := sim_trackAssign target hiB'
+    have hiB' : Inv [] (top :: below) sB := hiB.push_frame
+    have hft := sim_trackAssign target (fun _ => False) (fun _ => False) hiB'
     rw [hsC] at hft
-    have hfv := sim_visitVars (varsOpt filter) hft.inv
-    rw [show visitVars sC (varsOpt filter) = sD from hsD] at hfv
-    have rf_out : ∀ x, (x ∈ (bindAtoms [] (top :: below) (targetAtoms target)).2 ∨
-        x ∈ lookups (bindAtoms [] (top :: below) (targetAtoms target)).1 (top :: below)
-          (varsOpt filter)) → x ∈ sH.pop.out := by
+    have hfv := sim_visitLeaves (nvarsOpt filter) (fun _ => False) (fun _ => False) (hft.inv rfl)
+    rw [show visitLeaves sC (nvarsOpt filter) = sD from hsD] at hfv
+    have rf_ok : ∀ x ∈ (bindAtoms [] (top :: below) (targetAtoms target)).2 ++
+        lookups (bindAtoms [] (top :: below) (targetAtoms target)).1 (top :: below)
+          (varsOpt filter),
+        (sH.pop.reported x ∨ x ∈ selfRefsL body ++ selfRefsL els ∨ P x) ∧
+        (bound top below x = false ∨ x ∈ selfRefsL body ++ selfRefsL els ∨ Q x) := by
       intro x hx
+      rw [List.mem_append] at hx
       rcases hx with hx | hx
-      · exact oC x ((hft.reads x hx).resolve_right (by simp))
-      · exact oD x ((hfv.reads x hx).resolve_right (by simp))
-    have rf_unb : ∀ x, (x ∈ (bindAtoms [] (top :: below) (targetAtoms target)).2 ∨
-        x ∈ lookups (bindAtoms [] (top :: below) (targetAtoms target)).1 (top :: below)
-          (varsOpt filter)) → bound top below x = false := by
-      intro x hx
-      rcases hx with hx | hx
-      · have := (hft.unb x hx).resolve_right (by simp)
+      · refine ⟨Or.inl (oC x ((hft.reads x hx).resolve_right (by simp))), Or.inl ?_⟩
+        have := (hft.unb x hx).resolve_right (by simp)
         rwa [bound_push] at this
-      · exact unbound_of_push ((mem_lookups _ _ _ _).1 hx).2
+      · refine ⟨Or.inl (oD x ((hfv.reads x hx).resolve_right (by simp))), Or.inl ?_⟩
+        exact unbound_of_push ((mem_lookups _ _ _ _).1 hx).2
     by_cases hn1 : c.n = 1
     · simp only [exec, hn1, if_true, if_false, Nat.one_ne_zero]
-      have hE := hElse c.sub0
-      refine ⟨hE.inv, hE.grow, ?_, ?_⟩
-      · intro x hx
-        simp only [List.mem_append] at hx
-        rcases hx with hx | hx | hx
-        · exact Or.inl (r0_out x hx)
-        · exact Or.inl (rf_out x hx)
-        · exact (hE.reads x hx).imp id (exE x)
-      · intro x hx
-        simp only [List.mem_append] at hx
-        rcases hx with hx | hx | hx
-        · exact Or.inl (r0_unb x hx)
-        · exact Or.inl (rf_unb x hx)
-        · exact (hE.unb x hx).imp id (exE x)
+      exact Sim.prepend _ (Sim.prepend _ (hElse c.sub0) rf_ok) r0_ok
     · simp only [exec, hn0, hn1, if_false]
       -- iterations: loop frame with `loop`, target, then the body
       have hiBl : Inv ["loop"] (top :: below) sB := hiB'.mono_top (by simp)
-      have hit := sim_trackAssign target hiBl
-      rw [hsC] at hit
-      have hiD := (inv_visitVars (varsOpt filter) hit.inv).1
-      rw [show visitVars sC (varsOpt filter) = sD from hsD] at hiD
-      have hloop : bound (bindAtoms ["loop"] (top :: below) (targetAtoms target)).1
-          (top :: below) "loop" = true := by
-        rw [bound_iff]; exact Or.inl (hit.grow "loop" (by simp))
-      have hiE := inv_assign_bound "loop" hiD hloop
-      refine ⟨hfin, fun _ hx => hx, ?_, ?_⟩
+      obtain ⟨hiE, hit2⟩ := loop_entry (Ghost.mk sB filter) (targetAtoms target) hiBl
+      rw [hgE] at hiE
+      -- what the body may rely on: the enclosing promises plus its own report
+      have hbt' : Ctx bt (fun x => P x ∨ sF.reported x ∨ x ∈ selfRefsL body)
+          (fun x => Q x ∨ x ∈ selfRefsL body) :=
+        hbt.mono (fun _ hq => Or.inl hq)
+          (fun x hq => hq.elim (fun hq => Or.inl (hbt.qp x hq)) (fun hs => Or.inr (Or.inr hs)))
+      have hup : ∀ x, bound top below x = true →
+          bound (bindAtoms ["loop"] (top :: below) (targetAtoms target)).1 (top :: below) x = true :=
+        fun x hx => (bound_cons_iff _ _ _ _).2 (Or.inr hx)
+      have hrc0 : RcOK rc G (bindAtoms ["loop"] (top :: below) (targetAtoms target)).1
+          (top :: below) (fun x => P x ∨ sF.reported x ∨ x ∈ selfRefsL body)
+          (fun x => Q x ∨ x ∈ selfRefsL body) :=
+        hrc.mono hup (fun _ hp => Or.inl hp) (fun _ hq => Or.inl hq)
+      have hbody : ∀ kid, Sim (bindAtoms ["loop"] (top :: below) (targetAtoms target)).1
+          (top :: below)
+          (execList K (if recursive then (targetAtoms target, body) :: rc else rc) bt
+            (bindAtoms ["loop"] (top :: below) (targetAtoms target)).1 (top :: below) kid body)
+          sF (selfRefsL body) (fun x => P x ∨ sF.reported x ∨ x ∈ selfRefsL body)
+          (fun x => Q x ∨ x ∈ selfRefsL body) := by
+        intro kid
+        cases recursive with
+        | false =>
+          have := hb K hK _ _ rc G bt _ _ _ kid hbt' hrc0 hiE
+          rw [hsF] at this
+          simpa using this
+        | true =>
+          have hrc1 : RcOK ((targetAtoms target, body) :: rc) (Ghost.mk sB filter :: G)
+              (bindAtoms ["loop"] (top :: below) (targetAtoms target)).1 (top :: below)
+              (fun x => P x ∨ sF.reported x ∨ x ∈ selfRefsL body)
+              (fun x => Q x ∨ x ∈ selfRefsL body) := by
+            refine ⟨⟨hiBl.of_bound (loop_frame_mono _ hup), ?_, fun x hx => Or.inr hx⟩, hrc0⟩
+            intro x hx
+            simp only [hgE, hsF] at hx
+            exact Or.inr (Or.inl hx)
+          have := hb K hK _ _ _ _ bt _ _ _ kid hbt' hrc1 hiE
+          rw [hsF] at this
+          simpa using this
+      refine ⟨fun _ => hfin, fun _ hx => hx, ?_, ?_⟩
       · intro x hx
         simp only [List.mem_append] at hx
         rcases hx with hx | hx | hx | hx
-        · exact Or.inl (r0_out x hx)
-        · exact Or.inl (rf_out x hx)
-        · exact Or.inl (oC x ((hit.reads x hx).resolve_right (by simp)))
+        · exact (r0_ok x hx).1
+        · exact (rf_ok x (List.mem_append.2 hx)).1
+        · exact Or.inl (oC x (by rw [← hsC]; exact (hit2 x hx).1))
         · rw [List.mem_flatMap] at hx
           obtain ⟨kid, _, hx⟩ := hx
-          have hk := hb _ _ _ kid hiE
-          rw [hsF] at hk
-          exact (hk.reads x hx).imp (oF x) (exB x)
+          rcases (hbody kid).reads x hx with hr | hr | hr | hr | hr
+          · exact Or.inl (oF x hr)
+          · exact Or.inr (Or.inl (exB x hr))
+          · exact Or.inr (Or.inr hr)
+          · exact Or.inl (oF x hr)
+          · exact Or.inr (Or.inl (exB x hr))
       · intro x hx
         simp only [List.mem_append] at hx
         rcases hx with hx | hx | hx | hx
-        · exact Or.inl (r0_unb x hx)
-        · exact Or.inl (rf_unb x hx)
-        · exact Or.inl (unbound_of_push (unbound_anti (top := [])
-            (fun _ h => by cases h) ((hit.unb x hx).resolve_right (by simp))))
+        · exact (r0_ok x hx).2
+        · exact (rf_ok x (List.mem_append.2 hx)).2
+        · exact Or.inl (hit2 x hx).2
         · rw [List.mem_flatMap] at hx
           obtain ⟨kid, _, hx⟩ := hx
-          have hk := hb _ _ _ kid hiE
-          rcases hk.unb x hx with hu | hu
-          · exact Or.inl (unbound_of_push hu)
-          · exact Or.inr (exB x hu)
+          rcases (hbody kid).unb x hx with hr | hr | hr | hr
+          · exact Or.inl (unbound_of_push hr)
+          · exact Or.inr (Or.inl (exB x hr))
+          · exact Or.inr (Or.inr hr)
+          · exact Or.inr (Or.inl (exB x hr))
 
 /-! ### macros -/
 
-theorem isAssigned_assign_imp (st : St) (x y : String)
-    (h : (st.assign x).isAssigned y = true) : y = x ∨ st.isAssigned y = true := by
-  by_cases hne : st.assigned = []
-  · right
-    have : (st.assign x).assigned = st.assigned := by simp [St.assign, hne]
-    simpa [St.isAssigned, this] using h
-  · exact (isAssigned_assign st hne x y).1 h
-
+omit hK in
 theorem mem_closureNames {args : List String} {defaults : List Expr} {body : List Stmt}
     {x : String} : x ∈ closureNames args defaults body ↔
       x ∈ findMacroClosure args defaults body ∧ x ≠ "caller" := by
   simp [closureNames]
 
+omit hK in
 /-- everything the closure analysis reports is resolved by the frame a macro body starts in -/
 theorem macroFrame_bound (args : List String) (defaults : List Expr) (body : List Stmt)
     (x : String) (hx : x ∈ findMacroClosure args defaults body) :
@@ -386,32 +637,40 @@ theorem macroFrame_bound (args : List String) (defaults : List Expr) (body : Lis
   · exact List.mem_append_right _ (mem_closureNames.2 ⟨hx, hc⟩)
 
 /-- a macro body (prologue + body) run in its own context asks the render context for
-nothing except the own names of self-referential macros declared inside it -/
+nothing except the own names of self-referential macros declared inside it and what the
+blocks it renders ask for -/
 theorem macro_body_reads (args : List String) (defaults : List Expr) (body : List Stmt)
-    (hb : BodyOK body) (kid : List Ch) (x : String)
+    (hb : BodyOK body) (hbt : Ctx bt P Q) (kid : List Ch) (x : String)
     (hx : x ∈ (bindArgs (macroFrame args defaults body) [[]] args.reverse defaults.reverse).2 ++
-      (execList (bindArgs (macroFrame args defaults body) [[]] args.reverse defaults.reverse).1
-        [[]] kid body).2) : x ∈ selfRefsL body := by
+      (execList K [] bt
+        (bindArgs (macroFrame args defaults body) [[]] args.reverse defaults.reverse).1
+        [[]] kid body).reads) : x ∈ selfRefsL body ∨ Q x := by
   have hinit : Inv (macroFrame args defaults body) [[]] St.init := by
     intro y hy; simp [St.init, St.isAssigned] at hy
-  have ha := sim_args args.reverse defaults.reverse hinit
-  have hbody := hb _ _ _ kid ha.inv
-  have hall := Sim.seq ha hbody (step_walkList body _).out
+  have ha := sim_args args.reverse defaults.reverse Q Q hinit
+  have hbody := hb K hK Q Q [] [] bt _ _ _ kid hbt.same (by simp [RcOK]) (ha.inv rfl)
+  have hall := Sim.seq ha hbody (step_walkList body _).rep
+  have hflat : (walkList (macroArgs St.init args.reverse defaults.reverse) body).nested = none :=
+    (Step.trans (step_macroArgs St.init _ _) (step_walkList body _)).nn rfl
   have hr := hall.reads x hx
   have hu := hall.unb x hx
   simp only [List.nil_append] at hr hu
-  rcases hr with hr | hr
-  · rcases hu with hu | hu
-    · have := macroFrame_bound args defaults body x hr
+  rcases hu with hu | hu | hu
+  · rcases hr with hr | hr | hr
+    · rw [reported_none hflat] at hr
+      have := macroFrame_bound args defaults body x hr
       rw [hu] at this; cases this
-    · exact hu
-  · exact hr
+    · exact Or.inl hr
+    · exact Or.inr hr
+  · exact Or.inl hu
+  · exact Or.inr hu
 
+omit hK in
 /-- look-ups of `Enclose` at a macro declaration -/
 theorem enclose_reads (st1 : St) (hne : st1.assigned ≠ [])
     (args : List String) (defaults : List Expr) (body : List Stmt) (x : String)
     (hx : x ∈ closureNames args defaults body) :
-    x ∈ (walkList (macroArgs (st1.assign "caller") args.reverse defaults.reverse) body).out
+    (walkList (macroArgs (st1.assign "caller") args.reverse defaults.reverse) body).reported x
       ∨ st1.isAssigned x = true := by
   obtain ⟨hx1, hx2⟩ := mem_closureNames.1 hx
   rcases closure_in_context (st1.assign "caller") (assign_ne _ hne _) args defaults body x hx1
@@ -423,19 +682,22 @@ theorem enclose_reads (st1 : St) (hne : st1.assigned ≠ [])
 
 theorem sim_macro (name : String) (args : List String) (defaults : List Expr) (body : List Stmt)
     (hb : BodyOK body)
-    (st : St) (top : Frame) (below : List Frame) (c : Ch) (h : Inv top below st) :
-    Sim top below (exec top below c (.macro name args defaults body))
-      (walk st (.macro name args defaults body)) (selfRefs (.macro name args defaults body)) := by
+    (st : St) (c : Ch) (hbt : Ctx bt P Q) (h : Inv top below st) :
+    Sim top below (exec K rc bt top below c (.macro name args defaults body))
+      (walk st (.macro name args defaults body)) (selfRefs (.macro name args defaults body))
+      P Q := by
   generalize hs5 : walkList (macroArgs ((st.assign name).push.assign "caller") args.reverse
     defaults.reverse) body = s5
   have hw : walk st (.macro name args defaults body) = s5.pop := by simp only [walk, hs5]
   have hst : Step (st.assign name).push s5 :=
     hs5 ▸ Step.trans (Step.trans (step_assign _ _) (step_macroArgs _ _ _)) (step_walkList _ _)
   obtain ⟨e5, o5, _⟩ := step_scope hst
-  have oSt : ∀ x ∈ st.out, x ∈ s5.pop.out := fun x hx => o5 x ((step_assign st name).out x hx)
+  have oSt : ∀ x, st.reported x → s5.pop.reported x :=
+    fun x hx => o5 x ((step_assign st name).rep x hx)
   rw [hw]
   simp only [exec, selfRefs]
-  refine ⟨(inv_assign name h).of_assigned_eq e5 o5, fun x hx => List.mem_cons_of_mem _ hx, ?_, ?_⟩
+  refine ⟨fun _ => (inv_assign name h).of_assigned_eq e5 o5,
+    fun x hx => List.mem_cons_of_mem _ hx, ?_, ?_⟩
   · intro x hx
     rw [List.mem_append] at hx
     rcases hx with hx | hx
@@ -447,30 +709,34 @@ theorem sim_macro (name : String) (args : List String) (defaults : List Expr) (b
       · rw [isAssigned_push] at h1
         rcases isAssigned_assign_imp _ _ _ h1 with h2 | h2
         · subst h2
-          right
+          right; left
           simp [hx1]
         · rcases h x h2 with h3 | h3
           · exact Or.inl (oSt x h3)
           · rw [hx2] at h3; cases h3
     · rw [List.mem_flatMap] at hx
       obtain ⟨kid, _, hx⟩ := hx
-      exact Or.inr (List.mem_append_right _ (macro_body_reads args defaults body hb kid x hx))
+      rcases macro_body_reads hK args defaults body hb hbt kid x hx with hr | hr
+      · exact Or.inr (Or.inl (List.mem_append_right _ hr))
+      · exact Or.inr (Or.inr (hbt.qp x hr))
   · intro x hx
     rw [List.mem_append] at hx
     rcases hx with hx | hx
     · exact Or.inl ((mem_lookups _ _ _ _).1 hx).2
     · rw [List.mem_flatMap] at hx
       obtain ⟨kid, _, hx⟩ := hx
-      exact Or.inr (List.mem_append_right _ (macro_body_reads args defaults body hb kid x hx))
+      rcases macro_body_reads hK args defaults body hb hbt kid x hx with hr | hr
+      · exact Or.inr (Or.inl (List.mem_append_right _ hr))
+      · exact Or.inr (Or.inr hr)
 
 theorem sim_callBlock (callee : Expr) (cargs : List CallArg) (args : List String)
     (defaults : List Expr) (body : List Stmt) (hb : BodyOK body)
-    (st : St) (top : Frame) (below : List Frame) (c : Ch) (h : Inv top below st) :
-    Sim top below (exec top below c (.callBlock callee cargs args defaults body))
+    (st : St) (c : Ch) (hbt : Ctx bt P Q) (h : Inv top below st) :
+    Sim top below (exec K rc bt top below c (.callBlock callee cargs args defaults body))
       (walk st (.callBlock callee cargs args defaults body))
-      (selfRefs (.callBlock callee cargs args defaults body)) := by
-  have hv := sim_visitVars (varsCall callee cargs) h
-  generalize hs1 : visitVars st (varsCall callee cargs) = s1 at hv
+      (selfRefs (.callBlock callee cargs args defaults body)) P Q := by
+  obtain ⟨hi1, hrd⟩ := inv_visitLeaves (nvarsCall callee cargs) h
+  generalize hs1 : visitLeaves st (nvarsCall callee cargs) = s1 at hi1 hrd
   generalize hs5 : walkList (macroArgs (s1.push.assign "caller") args.reverse
     defaults.reverse) body = s5
   have hw : walk st (.callBlock callee cargs args defaults body) = s5.pop := by
@@ -480,23 +746,25 @@ theorem sim_callBlock (callee : Expr) (cargs : List CallArg) (args : List String
   obtain ⟨e5, o5, _⟩ := step_scope hst
   rw [hw]
   simp only [exec, selfRefs]
-  refine ⟨hv.inv.of_assigned_eq e5 o5, fun x hx => hx, ?_, ?_⟩
+  refine ⟨fun _ => hi1.of_assigned_eq e5 o5, fun x hx => hx, ?_, ?_⟩
   · intro x hx
     rw [List.mem_append, List.mem_append] at hx
     rcases hx with hx | hx | hx
-    · exact Or.inl (o5 x ((hv.reads x hx).resolve_right (by simp)))
+    · exact Or.inl (o5 x (hrd x hx))
     · obtain ⟨hx1, hx2⟩ := (mem_lookups _ _ _ _).1 hx
       have := enclose_reads s1.push (by simp [St.push]) args defaults body x hx1
       rw [hs5] at this
       rcases this with h1 | h1
       · exact Or.inl h1
       · rw [isAssigned_push] at h1
-        rcases hv.inv x h1 with h3 | h3
+        rcases hi1 x h1 with h3 | h3
         · exact Or.inl (o5 x h3)
         · rw [hx2] at h3; cases h3
     · rw [List.mem_flatMap] at hx
       obtain ⟨kid, _, hx⟩ := hx
-      exact Or.inr (macro_body_reads args defaults body hb kid x hx)
+      rcases macro_body_reads hK args defaults body hb hbt kid x hx with hr | hr
+      · exact Or.inr (Or.inl hr)
+      · exact Or.inr (Or.inr (hbt.qp x hr))
   · intro x hx
     rw [List.mem_append, List.mem_append] at hx
     rcases hx with hx | hx | hx
@@ -504,38 +772,331 @@ theorem sim_callBlock (callee : Expr) (cargs : List CallArg) (args : List String
     · exact Or.inl ((mem_lookups _ _ _ _).1 hx).2
     · rw [List.mem_flatMap] at hx
       obtain ⟨kid, _, hx⟩ := hx
-      exact Or.inr (macro_body_reads args defaults body hb kid x hx)
+      rcases macro_body_reads hK args defaults body hb hbt kid x hx with hr | hr
+      · exact Or.inr (Or.inl hr)
+      · exact Or.inr (Or.inr hr)
 
-/-! ### the induction -/
+end
+
+
+/-! ### blocks, loop controls, the induction -/
+
+section
+variable {K : Reenter} (hK : KOK K) {P Q : String → Prop} {rc : RC} {G : List Ghost} {bt : BT}
+  {top : Frame} {below : List Frame}
+include hK
+
+theorem sim_block (name : String) (body : List Stmt) (hb : BodyOK body)
+    (st : St) (c : Ch) (hbt : Ctx bt P Q) (h : Inv top below st) :
+    Sim top below (exec K rc bt top below c (.block name body)) (walk st (.block name body))
+      (selfRefs (.block name body)) P Q := by
+  have hin : Inv [] (top :: below) { st with assigned := [[]] } := by
+    intro y hy; simp [St.isAssigned] at hy
+  have hs := hb K hK P Q [] [] bt _ _ _ c.sub0 hbt (by simp [RcOK]) hin
+  have hst := step_walkList body { st with assigned := [[]] }
+  simp only [walk, exec, selfRefs]
+  refine ⟨fun _ => h.of_assigned_eq rfl (fun x hx => hst.rep x hx), fun _ hx => hx, ?_, ?_⟩
+  · intro x hx
+    exact hs.reads x hx
+  · intro x hx
+    rcases hs.unb x hx with hu | hu
+    · exact Or.inl (by rw [bound_push] at hu; exact hu)
+    · exact Or.inr hu
+
+end
 
 mutual
-theorem sim_walk : (s : Stmt) → ∀ (st : St) (top : Frame) (below : List Frame) (c : Ch),
-    Inv top below st → Sim top below (exec top below c s) (walk st s) (selfRefs s)
-  | .emit e => fun st top below c h => by
-      simpa only [walk, exec, selfRefs, visitExpr] using sim_visitVars (vars e) h
-  | .raw => fun st top below c h => by
-      simpa only [walk, exec, selfRefs] using Sim.nil h []
-  | .forLoop target iter filter body els =>
-      sim_for target iter filter body els (sim_walkList body) (sim_walkList els)
-  | .ifCond e t f => sim_if e t f (sim_walkList t) (sim_walkList f)
-  | .withBlock assigns body => sim_withBlock assigns body (sim_walkList body)
-  | .set target e => sim_set target e
-  | .setBlock target filter body => sim_setBlock target filter body (sim_walkList body)
-  | .autoEscape e body => sim_autoEscape e body (sim_walkList body)
-  | .filterBlock filter body => sim_filterBlock filter body (sim_walkList body)
-  | .macro name args defaults body => sim_macro name args defaults body (sim_walkList body)
-  | .callBlock callee cargs args defaults body =>
-      sim_callBlock callee cargs args defaults body (sim_walkList body)
-  | .doStmt callee cargs => fun st top below c h => by
-      simpa only [walk, exec, selfRefs] using sim_visitVars (varsCall callee cargs) h
+theorem sim_walk : (s : Stmt) → ∀ (K : Reenter), KOK K → ∀ (P Q : String → Prop) (rc : RC)
+    (G : List Ghost) (bt : BT) (st : St) (top : Frame) (below : List Frame) (c : Ch),
+    Ctx bt P Q → RcOK rc G top below P Q → Inv top below st →
+    Sim top below (exec K rc bt top below c s) (walk st s) (selfRefs s) P Q
+  | .emit e => fun K _ P Q rc G bt st top below c _ _ h => by
+      simpa only [walk, exec, selfRefs, visitExpr, vars] using sim_visitLeaves (nvars e) P Q h
+  | .raw => fun K _ P Q rc G bt st top below c _ _ h => by
+      simpa only [walk, exec, selfRefs] using Sim.nil h [] P Q
+  | .forLoop target iter filter recursive body els => fun K hK P Q rc G bt st top below c hbt hrc h =>
+      sim_for hK target iter filter recursive body els (sim_walkList body) (sim_walkList els)
+        st c hbt hrc h
+  | .ifCond e t f => fun K hK P Q rc G bt st top below c hbt hrc h =>
+      sim_if hK e t f (sim_walkList t) (sim_walkList f) st c hbt hrc h
+  | .withBlock assigns body => fun K hK P Q rc G bt st top below c hbt hrc h =>
+      sim_withBlock hK assigns body (sim_walkList body) st c hbt hrc h
+  | .set target e => fun K _ P Q rc G bt st top below c _ _ h => sim_set target e st c h
+  | .setBlock target filter body => fun K hK P Q rc G bt st top below c hbt hrc h =>
+      sim_setBlock hK target filter body (sim_walkList body) st c hbt hrc h
+  | .autoEscape e body => fun K hK P Q rc G bt st top below c hbt hrc h =>
+      sim_autoEscape hK e body (sim_walkList body) st c hbt hrc h
+  | .filterBlock filter body => fun K hK P Q rc G bt st top below c hbt hrc h =>
+      sim_filterBlock hK filter body (sim_walkList body) st c hbt hrc h
+  | .macro name args defaults body => fun K hK P Q rc G bt st top below c hbt _ h =>
+      sim_macro hK name args defaults body (sim_walkList body) st c hbt h
+  | .callBlock callee cargs args defaults body => fun K hK P Q rc G bt st top below c hbt _ h =>
+      sim_callBlock hK callee cargs args defaults body (sim_walkList body) st c hbt h
+  | .doStmt callee cargs => fun K _ P Q rc G bt st top below c _ _ h => by
+      simpa only [walk, exec, selfRefs, varsCall] using
+        sim_visitLeaves (nvarsCall callee cargs) P Q h
+  | .brk => fun K _ P Q rc G bt st top below c _ _ h => by
+      simp only [walk, exec, selfRefs]
+      exact ⟨fun hn => (by cases hn), fun _ hx => hx, fun x hx => (by cases hx),
+        fun x hx => (by cases hx)⟩
+  | .cont => fun K _ P Q rc G bt st top below c _ _ h => by
+      simp only [walk, exec, selfRefs]
+      exact ⟨fun hn => (by cases hn), fun _ hx => hx, fun x hx => (by cases hx),
+        fun x hx => (by cases hx)⟩
+  | .block name body => fun K hK P Q rc G bt st top below c hbt _ h =>
+      sim_block hK name body (sim_walkList body) st c hbt h
 theorem sim_walkList : (ss : List Stmt) → BodyOK ss
-  | [] => fun st top below cs h => by
-      simpa only [walkList, execList, selfRefsL] using Sim.nil h []
-  | s :: ss => fun st top below cs h => by
-      have h1 := sim_walk s st top below (cs.headD Ch.default) h
-      have h2 := sim_walkList ss _ _ below cs.tail h1.inv
-      simpa only [walkList, execList, selfRefsL] using Sim.seq h1 h2 (step_walkList ss _).out
+  | [] => fun K _ P Q rc G bt st top below cs _ _ h => by
+      simpa only [walkList, execList, selfRefsL] using Sim.nil h [] P Q
+  | s :: ss => fun K hK P Q rc G bt st top below cs hbt hrc h => by
+      have hq := hK P Q rc G bt top below (cs.headD Ch.default).reqs hbt hrc
+      have h1 := sim_walk s K hK P Q rc G bt st top below (cs.headD Ch.default) hbt hrc h
+      have hq' : ∀ x ∈ K rc bt top below (cs.headD Ch.default).reqs,
+          ((walkList (walk st s) ss).reported x ∨ x ∈ selfRefs s ++ selfRefsL ss ∨ P x) ∧
+          (bound top below x = false ∨ x ∈ selfRefs s ++ selfRefsL ss ∨ Q x) :=
+        fun x hx => ⟨Or.inr (Or.inr (hq x hx).1), (hq x hx).2.imp id Or.inr⟩
+      simp only [walkList, execList, selfRefsL]
+      by_cases hs : (exec K rc bt top below (cs.headD Ch.default) s).stopped = true
+      · simp only [hs, if_true]
+        exact Sim.prepend _ (Sim.stop (selfRefsL ss) h1 (step_walkList ss _).rep) hq'
+      · have hs' : (exec K rc bt top below (cs.headD Ch.default) s).stopped = false := by
+          cases hh : (exec K rc bt top below (cs.headD Ch.default) s).stopped <;> simp_all
+        simp only [hs', Bool.false_eq_true, if_false]
+        have hrc' := hrc.mono (top' := (exec K rc bt top below (cs.headD Ch.default) s).top)
+          (below' := below) (fun x hx => bound_mono h1.grow hx) (fun _ hp => hp) (fun _ hp => hp)
+        have h2 := sim_walkList ss K hK P Q rc G bt _ _ below cs.tail hbt hrc' (h1.inv hs')
+        exact Sim.prepend _ (Sim.seq h1 h2 (step_walkList ss _).rep) hq'
 end
+
+/-- re-entries are accounted for, however deeply they nest -/
+theorem kok_reenter : ∀ d, KOK (reenter d)
+  | 0 => fun _ _ _ _ _ _ _ _ _ _ x hx => by simp [reenter] at hx
+  | d + 1 => fun P Q rc G bt top below reqs hbt hrc x hx => by
+      simp only [reenter, List.mem_flatMap] at hx
+      obtain ⟨r, _, hx⟩ := hx
+      unfold serve at hx
+      split at hx
+      · -- a running recursive loop
+        have hd := hrc.drop r.n
+        split at hx
+        · rename_i atoms body rest heq
+          rw [heq] at hd
+          cases hG : G.drop r.n with
+          | nil => rw [hG] at hd; simp [RcOK] at hd
+          | cons g G' =>
+            rw [hG] at hd
+            obtain ⟨⟨hiB, hrep, hself⟩, _⟩ := hd
+            obtain ⟨hiE, hit2⟩ := loop_entry g atoms hiB
+            have hup : ∀ y, bound top below y = true →
+                bound (bindAtoms ["loop"] (top :: below) atoms).1 (top :: below) y = true :=
+              fun y hy => (bound_cons_iff _ _ _ _).2 (Or.inr hy)
+            have hrc' : RcOK ((atoms, body) :: rest) (g :: G')
+                (bindAtoms ["loop"] (top :: below) atoms).1 (top :: below) P Q := by
+              have := hrc.drop r.n
+              rw [heq, hG] at this
+              exact this.mono hup (fun _ hp => hp) (fun _ hq => hq)
+            have hsim := sim_walkList body (reenter d) (kok_reenter d) P Q _ _ bt _ _ _ r.sub0
+              hbt hrc' hiE
+            rw [List.mem_append] at hx
+            rcases hx with hx | hx
+            · have hsC := step_visitOpt (atoms.foldl trackAtom g.sB) g.filter
+              have hE : Step (atoms.foldl trackAtom g.sB) (walkList (g.sE atoms) body) :=
+                Step.trans (Step.trans hsC (step_assign _ "loop")) (step_walkList body _)
+              exact ⟨hrep x (hE.rep x (hit2 x hx).1), Or.inl (hit2 x hx).2⟩
+            · refine ⟨?_, ?_⟩
+              · rcases hsim.reads x hx with hr | hr | hr
+                · exact hrep x hr
+                · exact hbt.qp x (hself x hr)
+                · exact hr
+              · rcases hsim.unb x hx with hr | hr | hr
+                · exact Or.inl (unbound_of_push hr)
+                · exact Or.inr (hself x hr)
+                · exact Or.inr hr
+        · cases hx
+      · -- a block of the template
+        split at hx
+        · rename_i body heq
+          have hmem : body ∈ bt := List.mem_of_getElem? heq
+          have hin : Inv [] (top :: below) St.init := by
+            intro y hy; simp [St.init, St.isAssigned] at hy
+          have hsim := sim_walkList body (reenter d) (kok_reenter d) P Q [] [] bt _ _ _ r.sub0
+            hbt (by simp [RcOK]) hin
+          have hflat : (walkList St.init body).nested = none := (step_walkList body _).nn rfl
+          refine ⟨?_, ?_⟩
+          · rcases hsim.reads x hx with hr | hr | hr
+            · rw [reported_none hflat] at hr
+              exact hbt.qp x (hbt.free body hmem x hr)
+            · exact hbt.qp x (hbt.self body hmem x hr)
+            · exact hr
+          · rcases hsim.unb x hx with hr | hr | hr
+            · exact Or.inl (by rw [bound_push] at hr; exact hr)
+            · exact Or.inr (hbt.self body hmem x hr)
+            · exact Or.inr hr
+        · cases hx
+
+/-! ### the blocks of a template: their free names are reported, their exceptions are
+exceptions of the template -/
+
+mutual
+theorem blocks_reported : (s : Stmt) → ∀ (st : St), ∀ body ∈ blockBodies s,
+    ∀ x ∈ (walkList St.init body).out, (walk st s).reported x
+  | .emit _, _, _, hb => by simp [blockBodies] at hb
+  | .raw, _, _, hb => by simp [blockBodies] at hb
+  | .forLoop target iter filter _ body els, st, b, hb => by
+      intro x hx
+      simp only [blockBodies, List.mem_append] at hb
+      simp only [walk]
+      rcases hb with hb | hb
+      · have := blocksL_reported body
+          ((visitOpt (trackAssign (visitExpr st.push iter) target) filter).assign "loop") b hb x hx
+        exact (step_of_scope (step_walkList els _)).rep x this
+      · exact blocksL_reported els _ b hb x hx
+  | .ifCond c t f, st, b, hb => by
+      intro x hx
+      simp only [blockBodies, List.mem_append] at hb
+      simp only [walk]
+      rcases hb with hb | hb
+      · have := blocksL_reported t (visitExpr st c).push b hb x hx
+        exact (step_of_scope (step_walkList f _)).rep x this
+      · exact blocksL_reported f _ b hb x hx
+  | .withBlock assigns body, st, b, hb => by
+      intro x hx
+      simp only [blockBodies] at hb
+      simp only [walk]
+      exact blocksL_reported body _ b hb x hx
+  | .set _ _, _, _, hb => by simp [blockBodies] at hb
+  | .setBlock target filter body, st, b, hb => by
+      intro x hx
+      simp only [blockBodies] at hb
+      simp only [walk]
+      have := blocksL_reported body st.push b hb x hx
+      exact (Step.trans (step_visitOpt _ filter) (step_trackAssign _ target)).rep x this
+  | .autoEscape e body, st, b, hb => by
+      intro x hx
+      simp only [blockBodies] at hb
+      simp only [walk]
+      exact blocksL_reported body _ b hb x hx
+  | .filterBlock filter body, st, b, hb => by
+      intro x hx
+      simp only [blockBodies] at hb
+      simp only [walk]
+      have := blocksL_reported body st.push b hb x hx
+      exact (step_visitExpr _ filter).rep x this
+  | .macro name args defaults body, st, b, hb => by
+      intro x hx
+      simp only [blockBodies] at hb
+      simp only [walk]
+      exact blocksL_reported body _ b hb x hx
+  | .callBlock callee cargs args defaults body, st, b, hb => by
+      intro x hx
+      simp only [blockBodies] at hb
+      simp only [walk]
+      exact blocksL_reported body _ b hb x hx
+  | .doStmt _ _, _, _, hb => by simp [blockBodies] at hb
+  | .brk, _, _, hb => by simp [blockBodies] at hb
+  | .cont, _, _, hb => by simp [blockBodies] at hb
+  | .block name body, st, b, hb => by
+      intro x hx
+      simp only [blockBodies, List.mem_cons] at hb
+      simp only [walk]
+      rcases hb with rfl | hb
+      · exact block_free_reported st b x hx
+      · exact blocksL_reported body _ b hb x hx
+theorem blocksL_reported : (ss : List Stmt) → ∀ (st : St), ∀ body ∈ blockBodiesL ss,
+    ∀ x ∈ (walkList St.init body).out, (walkList st ss).reported x
+  | [], _, _, hb => by simp [blockBodiesL] at hb
+  | s :: ss, st, b, hb => by
+      intro x hx
+      simp only [blockBodiesL, List.mem_append] at hb
+      simp only [walkList]
+      rcases hb with hb | hb
+      · exact (step_walkList ss _).rep x (blocks_reported s st b hb x hx)
+      · exact blocksL_reported ss _ b hb x hx
+end
+
+mutual
+theorem blocks_selfRefs : (s : Stmt) → ∀ body ∈ blockBodies s, ∀ x ∈ selfRefsL body, x ∈ selfRefs s
+  | .emit _, _, hb => by simp [blockBodies] at hb
+  | .raw, _, hb => by simp [blockBodies] at hb
+  | .forLoop _ _ _ _ body els, b, hb => by
+      intro x hx
+      simp only [blockBodies, List.mem_append] at hb
+      simp only [selfRefs, List.mem_append]
+      exact hb.imp (fun hb => blocksL_selfRefs body b hb x hx) (fun hb => blocksL_selfRefs els b hb x hx)
+  | .ifCond _ t f, b, hb => by
+      intro x hx
+      simp only [blockBodies, List.mem_append] at hb
+      simp only [selfRefs, List.mem_append]
+      exact hb.imp (fun hb => blocksL_selfRefs t b hb x hx) (fun hb => blocksL_selfRefs f b hb x hx)
+  | .withBlock _ body, b, hb => by
+      intro x hx
+      simp only [blockBodies] at hb
+      simp only [selfRefs]
+      exact blocksL_selfRefs body b hb x hx
+  | .set _ _, _, hb => by simp [blockBodies] at hb
+  | .setBlock _ _ body, b, hb => by
+      intro x hx
+      simp only [blockBodies] at hb
+      simp only [selfRefs]
+      exact blocksL_selfRefs body b hb x hx
+  | .autoEscape _ body, b, hb => by
+      intro x hx
+      simp only [blockBodies] at hb
+      simp only [selfRefs]
+      exact blocksL_selfRefs body b hb x hx
+  | .filterBlock _ body, b, hb => by
+      intro x hx
+      simp only [blockBodies] at hb
+      simp only [selfRefs]
+      exact blocksL_selfRefs body b hb x hx
+  | .macro _ _ _ body, b, hb => by
+      intro x hx
+      simp only [blockBodies] at hb
+      simp only [selfRefs, List.mem_append]
+      exact Or.inr (blocksL_selfRefs body b hb x hx)
+  | .callBlock _ _ _ _ body, b, hb => by
+      intro x hx
+      simp only [blockBodies] at hb
+      simp only [selfRefs]
+      exact blocksL_selfRefs body b hb x hx
+  | .doStmt _ _, _, hb => by simp [blockBodies] at hb
+  | .brk, _, hb => by simp [blockBodies] at hb
+  | .cont, _, hb => by simp [blockBodies] at hb
+  | .block _ body, b, hb => by
+      intro x hx
+      simp only [blockBodies, List.mem_cons] at hb
+      simp only [selfRefs]
+      rcases hb with rfl | hb
+      · exact hx
+      · exact blocksL_selfRefs body b hb x hx
+theorem blocksL_selfRefs : (ss : List Stmt) → ∀ body ∈ blockBodiesL ss,
+    ∀ x ∈ selfRefsL body, x ∈ selfRefsL ss
+  | [], _, hb => by simp [blockBodiesL] at hb
+  | s :: ss, b, hb => by
+      intro x hx
+      simp only [blockBodiesL, List.mem_append] at hb
+      simp only [selfRefsL, List.mem_append]
+      exact hb.imp (fun hb => blocks_selfRefs s b hb x hx) (fun hb => blocksL_selfRefs ss b hb x hx)
+end
+
+/-- the whole template, either mode of the analysis: every look-up of every execution is
+reported or is the own name of a self-referential macro -/
+theorem template_sound (t : List Stmt) (st0 : St) (h0 : st0.assigned = [[]])
+    (cs : List Ch) (d : Nat) (x : String) (hx : x ∈ reads t cs d) :
+    (walkList st0 t).reported x ∨ x ∈ selfRefsL t := by
+  let Q : String → Prop := fun y =>
+    ∃ body ∈ blockBodiesL t, y ∈ (walkList St.init body).out ∨ y ∈ selfRefsL body
+  have hctx : Ctx (blockBodiesL t) Q Q :=
+    ⟨fun _ h => h, fun body hb y hy => ⟨body, hb, Or.inl hy⟩, fun body hb y hy => ⟨body, hb, Or.inr hy⟩⟩
+  have hinit : Inv [] [] st0 := by
+    intro y hy; simp [St.isAssigned, h0] at hy
+  have hsim := sim_walkList t (reenter d) (kok_reenter d) Q Q [] [] (blockBodiesL t) st0 [] [] cs
+    hctx (by simp [RcOK]) hinit
+  rcases hsim.reads x hx with h | h | ⟨body, hb, h | h⟩
+  · exact Or.inl h
+  · exact Or.inr h
+  · exact Or.inl (blocksL_reported t st0 body hb x h)
+  · exact Or.inr (blocksL_selfRefs t body hb x h)
 
 /-! ### the macro-free fragment has no exceptions -/
 
@@ -543,7 +1104,7 @@ mutual
 theorem noMacro_selfRefs : (s : Stmt) → noMacro s = true → selfRefs s = []
   | .emit _, _ => rfl
   | .raw, _ => rfl
-  | .forLoop _ _ _ body els, h => by
+  | .forLoop _ _ _ _ body els, h => by
       simp only [noMacro, Bool.and_eq_true] at h
       simp [selfRefs, noMacroL_selfRefsL body h.1, noMacroL_selfRefsL els h.2]
   | .ifCond _ t f, h => by
@@ -565,6 +1126,11 @@ theorem noMacro_selfRefs : (s : Stmt) → noMacro s = true → selfRefs s = []
   | .macro _ _ _ _, h => by simp [noMacro] at h
   | .callBlock _ _ _ _ _, h => by simp [noMacro] at h
   | .doStmt _ _, _ => rfl
+  | .brk, _ => rfl
+  | .cont, _ => rfl
+  | .block _ body, h => by
+      simp only [noMacro] at h
+      simp [selfRefs, noMacroL_selfRefsL body h]
 theorem noMacroL_selfRefsL : (ss : List Stmt) → noMacroL ss = true → selfRefsL ss = []
   | [], _ => rfl
   | s :: ss, h => by
